@@ -1,10 +1,16 @@
 (* Properties_C14.v -- C14: tokenising.  Only theorem statements, each closed by [exact].
    Proved so far: store footprint of every call (only *ptr, *dmaxp and the string, up to and including the
    element at index dmax -- the latter is the known finding tok-unterminated-writes-dest-dmax), and the
-   handler discipline of every call.  The token-sequence refinement to the reference tokeniser is covered by
-   the correspondence run (exhaustive small strings x delimiter schedules) and is the next proof target. *)
+   handler discipline of every call; and (C14_strtok_s_sequence, C14_wcstok_s_sequence) the functional statement:
+   a call sequence on a terminated string with dmax > strlen, one non-empty delimiter list (<= STRTOK_DELIM_MAX_LEN) per
+   call, returns exactly the reference sequence SpecTok.ref_seq -- every returned token is a terminated string inside
+   [str, str+dmax), after the tokens NULL is returned forever, and no byte changes outside *ptr, *dmaxp and the
+   non-terminator elements of the string (only consumed delimiters are overwritten, see ProofsTokSeq.tok_post);
+   C14_ref_seq_is_tokens identifies the per-call reference with the textbook "maximal delimiter-free substrings"
+   when the delimiter set is constant.  Excluded by the hypotheses (known findings): empty delimiter list,
+   unterminated string, dmax = strlen exactly (the call after the last token then reports ESZEROL). *)
 From Coq Require Import List ZArith Lia Bool.
-From SC Require Import Base Wp Cfg Comb CombProofs ModTok ProofsTok PropDefs.
+From SC Require Import Base Wp Cfg Comb CombProofs ModTok ProofsTok PropDefs SpecTok ProofsTokSeq.
 From SC.Gen Require Import Consts.
 Import ListNotations.
 Local Open Scope Z_scope.
@@ -31,3 +37,66 @@ Example C14_example :
                     if a =? 2000 then 44 else if a =? 2024 then 44 else if a =? 2048 then 44 else if a =? 2072 then 44 else 0 in
   fst (fst (exec (strtok_seq cfg_default 1000 4 4 2000 3000 BOS_UNKNOWN) m)) = [0; 2; 2; 2; 1; 3; -1; 1; 3; -1; 1; 3].
 Proof. vm_compute. reflexivity. Qed.
+
+(* ---- functional statement: the call sequence is the reference sequence ---- *)
+Theorem C14_strtok_s_sequence : forall c dmaxp ptr lo hi nmax bos,
+  0 < lo -> hi < 256 ^ 8 -> (ptr + 8 <= lo \/ hi <= ptr) -> (dmaxp + 8 <= lo \/ hi <= dmaxp) ->
+  (ptr + 8 <= dmaxp \/ dmaxp + 8 <= ptr) -> ptr <> 0 -> dmaxp <> 0 ->
+  nmax <= rmax_str c -> (bos = BOS_UNKNOWN \/ nmax <= bos) ->
+  forall dps m p n s,
+  Forall (delim_ok 1 dmaxp ptr lo hi (tok_delim_max c) m) dps ->
+  tok_state0 1 dmaxp lo hi nmax m p n s ->
+  wp (strtok_calls c dmaxp ptr bos p (map fst dps)) m (fun rs m' =>
+    (forall x, ~ cell ptr x -> ~ cell dmaxp x -> ~ (p <= x < p + zlen s * 1) -> m' x = m x) /\
+    Forall2 (tok_res 1 hi m' p) rs (ref_seq (map snd dps) s)).
+Proof. exact strtok_s_sequence. Qed.
+Print Assumptions C14_strtok_s_sequence.
+Theorem C14_wcstok_s_sequence : forall c dmaxp ptr lo hi nmax bos,
+  0 < lo -> hi < 256 ^ 8 -> (ptr + 8 <= lo \/ hi <= ptr) -> (dmaxp + 8 <= lo \/ hi <= dmaxp) ->
+  (ptr + 8 <= dmaxp \/ dmaxp + 8 <= ptr) -> ptr <> 0 -> dmaxp <> 0 ->
+  0 < wchar_w c -> nmax <= rmax_wstr c -> (bos = BOS_UNKNOWN \/ nmax * wchar_w c <= bos) ->
+  forall dps m p n s,
+  Forall (delim_ok (wchar_w c) dmaxp ptr lo hi (tok_delim_max c) m) dps ->
+  tok_state0 (wchar_w c) dmaxp lo hi nmax m p n s ->
+  wp (wcstok_calls c dmaxp ptr bos p (map fst dps)) m (fun rs m' =>
+    (forall x, ~ cell ptr x -> ~ cell dmaxp x -> ~ (p <= x < p + zlen s * wchar_w c) -> m' x = m x) /\
+    Forall2 (tok_res (wchar_w c) hi m' p) rs (ref_seq (map snd dps) s)).
+Proof. exact wcstok_s_sequence. Qed.
+Print Assumptions C14_wcstok_s_sequence.
+(* one call: result, terminated token inside the buffer, the caller state for the next call
+   (p' + n' elements end exactly at the original end: the remaining length never reaches past dmax) *)
+Theorem C14_tok_call : forall c w wide dmaxp ptr, 0 < w -> forall lo hi, 0 <= lo -> hi < 256 ^ 8 ->
+  (ptr + 8 <= lo \/ hi <= ptr) -> (dmaxp + 8 <= lo \/ hi <= dmaxp) -> (ptr + 8 <= dmaxp \/ dmaxp + 8 <= ptr) ->
+  forall nmax dl delim m p n s,
+  chars_ok dl -> (length dl <= Z.to_nat (tok_delim_max c))%nat -> nonempty dl = true ->
+  str_at w m delim dl -> tok_state0 w dmaxp lo hi nmax m p n s ->
+  wp (tokskip c w wide dmaxp ptr delim n p) m (tok_post w dmaxp ptr lo hi nmax dl m p n s).
+Proof. exact tok_call_spec. Qed.
+Print Assumptions C14_tok_call.
+Theorem C14_ref_seq_is_tokens : forall dl k s, (length (tokens dl s) <= k)%nat ->
+  ref_seq (repeat dl k) s = map Some (tokens dl s) ++ repeat None (k - length (tokens dl s)).
+Proof. exact ref_seq_const. Qed.
+Print Assumptions C14_ref_seq_is_tokens.
+Theorem C14_sequence_constant_delims : forall w hi m' p dl k s rs, (length (tokens dl s) <= k)%nat ->
+  Forall2 (tok_res w hi m' p) rs (ref_seq (repeat dl k) s) ->
+  exists toks nulls, rs = toks ++ nulls /\
+    Forall2 (fun r tok => p <= r /\ r + (zlen tok + 1) * w <= hi /\ str_at w m' r tok) toks (tokens dl s) /\
+    Forall (fun r => r = 0) nulls /\ length nulls = (k - length (tokens dl s))%nat.
+Proof. exact Forall2_tok_res_const. Qed.
+Print Assumptions C14_sequence_constant_delims.
+(* the hypotheses are satisfiable: "a,b" at 1000 with dmax 4, *dmaxp at 3000, *ptr at 3008, "," at 2000 *)
+Example C14_sequence_hyps_satisfiable :
+  let m := fun a => if a =? 1000 then 97 else if a =? 1001 then 44 else if a =? 1002 then 98 else
+                    if a =? 2000 then 44 else if a =? 3000 then 4 else 0 in
+  tok_state0 1 3000 1000 1004 4096 m 1000 4 [97; 44; 98] /\ delim_ok 1 3000 3008 1000 1004 16 m (2000, [44]) /\
+  tokens [44] [97; 44; 98] = [[97]; [98]].
+Proof.
+  cbv zeta. split; [|split].
+  - constructor; try (vm_compute; (reflexivity || discriminate || lia)).
+    + split; [intros [|[|[|j]]] Hj; try reflexivity; cbn in Hj; lia|reflexivity].
+    + repeat constructor; discriminate.
+  - unfold delim_ok, zlen. cbn [fst snd length]. repeat split; try (vm_compute; (reflexivity || discriminate || lia)); try lia.
+    + repeat constructor; discriminate.
+    + intros [|j] Hj; [reflexivity|cbn in Hj; lia].
+  - reflexivity.
+Qed.
